@@ -7,7 +7,9 @@ from harness.drivers import engine_cases_ctl as ecc
 ID = "C04"
 PROP_FILE = "Props/C04.v"
 THEOREMS = ["C04_cache_is_trace_spec", "C04_resume_pushes_cache", "C04_resume_replays_trace_spec", "C04_suspender_pushes_cache",
-            "C04_rewind_plan_replays_in_order", "C04_helper_replays_in_order"]
+            "C04_rewind_plan_replays_in_order", "C04_helper_replays_in_order",
+            "C04_cache_only_cacheable", "C04_resume_replays_end_to_end", "C04_resume_replays_messages",
+            "C04_suspender_tail_replays", "C04_implicit_checkpoints_end_to_end"]
 impl_batch = cc.impl_batch
 coq_term = cc.coq_term
 RULE = ec.RULE + ("; plus C04 extras: plans mixing checkpoints, clear_checkpoint, rewindable regions, stage/unstage, monitor/unmonitor, "
